@@ -553,6 +553,45 @@ def gen_limb_boundary(f):
     _LIMB_BOUNDARY_CACHE[f] = out
     return out
 
+def gen_disguised_wq(rng, f, per_shift=40):
+    """(m, q) on the DISGUISED fast path (q above MAX_EXPONENT_FAST_PATH, m <= 2^(mbits+1)) at the two tests that guard it:
+    the 64-bit overflow of m * 10^(q - max) -- f64 only: products that wrap modulo 2^64 to a SMALL value (<= 2^53, and
+    in particular back into [m, 2^53], where an addition-style overflow test accepts them: seed C03-e), products next to
+    2^64 -- and the comparison with 2^(mbits+1) (products next to it, both formats)."""
+    F = FMT[f]
+    mb = F["mbits"]
+    M = 1 << (mb + 1)
+    kmax, kdis = (22, 37) if f == "f64" else (10, 17)
+    out = []
+    for s in range(1, kdis - kmax + 1):
+        P = 10 ** s
+        q = kmax + s
+        for d in range(-3, 4):
+            m = M // P + d
+            if 0 < m <= M:
+                out.append((m, q))
+        if f != "f64":
+            continue
+        for d in range(-2, 3):
+            m = (1 << 64) // P + d
+            if 0 < m <= M:
+                out.append((m, q))
+        # m * 10^s = 2^s * (m * 5^s): it wraps to 2^s * t with t = m * 5^s mod 2^(64-s)
+        mod = 1 << (64 - s)
+        inv = pow(5 ** s, -1, mod)
+        found = 0
+        for _ in range(200000):
+            if found >= per_shift:
+                break
+            t = rng.randint(1, max(1, M >> s))
+            m = (t * inv) % mod
+            if mod <= M:
+                m += mod * rng.randint(0, (M - m) // mod)
+            if 0 < m <= M and m * P >= 1 << 64:
+                out.append((m, q))
+                found += 1
+    return out
+
 def gen_mp_exact_guard(rng, f, per_q=6):
     """exact products (5^q fits 64 bits, low table word 0) whose guard bits are all ones: the second
     multiplication is taken and the carry comparison sees second_hi == first_lo == 0"""
@@ -903,6 +942,24 @@ def rand_big(rng, n, normalized=True, W=64):
 
 def ltok(x):
     return ",".join(str(v) for v in x) if x else "-"
+
+def gen_bigint_compare_grid(rng, W=64):
+    """`compare` on equal-length operands that differ in exactly ONE limb, for every length 1..capacity and the positions
+    an unrolled or chunked comparison treats specially (lowest limbs, middle, top): seed C10-f"""
+    CAP = 4000 // W
+    out = []
+    for n in range(1, CAP + 1):
+        x = rand_big(rng, n, W=W)
+        for i in sorted(set([0, 1, 2, 3, 4, n // 2, n - 2, n - 1])):
+            if not 0 <= i < n:
+                continue
+            y = list(x)
+            y[i] = (y[i] + rng.choice([1, 2 ** W - 1])) % 2 ** W
+            if y[-1] == 0:
+                y[-1] = 1
+            out.append(("bg compare %s %s" % (ltok(x), ltok(y)), "L-compare-grid"))
+            out.append(("bg compare %s %s" % (ltok(y), ltok(x)), "L-compare-grid"))
+    return out
 
 def gen_bigint(rng, count, W=64):
     """W = limb width of the build under test (64: the modelled build; 32: the other one, thorough tier)"""
